@@ -10,11 +10,13 @@ ID = "C04"
 LEVEL = "exploration"
 EXHAUSTIVE = True
 RULE = ("exhaustive: each of the 17 branch mnemonics x every byte distance d in -300..+300 (d measured from .+2) and sob x d in "
-        "-140..+6, each realised in up to six shapes (label with filler, label+-k octal, label+-k decimal, .+-k, numeric local label "
-        "with and without colon); accepted iff d even and within -256..254 (sob: -126..0), both directions asserted; accepted words "
+        "-140..+6, each realised in up to twelve shapes (label with filler, label+-k octal / decimal / hex, .+-k, .+-k inside .repeat, "
+        "numeric local label with and without colon, and from an included / second linked file to an exported label); accepted iff d even and within -256..254 (sob: -126..0), both directions asserted; accepted words "
         "are read by an independent decoder whose target must equal the source target. random: relative / relative-deferred operands "
         "in first or second position after 0 or 1 extension words, targets anywhere in 64 KiB (labels before/after with filler, "
-        "label+-k, .+-k, local labels, bare addresses, wrap-around), link bases anywhere. Non-trivial: |d| >= 2 or a preceding "
+        "label+-k, .+-k, local labels, bare addresses, wrap-around), link bases anywhere. placement: both parts also put the "
+        "instruction into an included file and into a second linked file that start at a non-zero offset of the program, aiming at "
+        "targets inside that file, at exported labels of the first file and at bare addresses. Non-trivial: |d| >= 2 or a preceding "
         "extension word; distinct = distinct source text.")
 ASSUMPTIONS = ["vf/ref/pdp11.py decoder computes branch targets as addr+2+2*sext8(off), SOB as addr+2-2*off6, relative operands as "
                "address of the extension word + 2 + displacement (mod 2^16)",
@@ -66,10 +68,40 @@ def branch_program(mn, d, shape, base=None):
         num = f"{abs(k):o}" if shape == "dot" else f"^D{abs(k)}"
         sign = "+" if k >= 0 else "-"
         return f"{head}\tnop\n\t{mn} {reg}.{sign}{num}\n", 2, B + 2
+    if shape in ("glob-include", "glob-second", "inner-include"):
+        # the branch stands in a file that starts `pad` bytes into the program; its target is an exported label of the first file
+        # (glob-*) or a label of its own file (inner-include)
+        pad = 6 + 2 * (abs(d) % 5)
+        if shape == "inner-include":
+            inner = branch_program(mn, d, "label", None)
+            if inner is None:
+                return None
+            text, off, addr = inner
+            main = f"{head}\t.blkb {pad:o}\n\t.include \"unit.mac\"\n"
+            return {"main.mac": main, "unit.mac": text}, ["main.mac"], pad + off, B + pad + off
+        unit = f"\t{mn} {reg}glob\n\tnop\n"
+        if d <= -2:
+            filler = -d - 2
+            first = f"{head}\t.blkb {pad:o}\nglob::\n\t.blkb {filler:o}\n"
+            tail = ""
+            off = pad + filler
+        elif d >= 0:
+            first = f"{head}\t.blkb {pad:o}\n"
+            tail = f"\t.blkb {max(d - 2, 0):o}\nglob::\n\tnop\n" if d >= 2 else None
+            off = pad
+            if tail is None:
+                return None
+        else:
+            return None
+        if shape == "glob-include":
+            return {"main.mac": first + "\t.include \"unit.mac\"\n" + tail, "unit.mac": unit}, ["main.mac"], off, B + off
+        if tail:
+            return {"a.mac": first, "b.mac": unit, "c.mac": tail}, ["a.mac", "b.mac", "c.mac"], off, B + off
+        return {"a.mac": first, "b.mac": unit}, ["a.mac", "b.mac"], off, B + off
     raise ValueError(shape)
 
 
-SHAPES = ["label", "local", "local-colon", "label-k", "label-kdec", "label-khex", "dot", "dot-dec", "dot-repeat"]
+SHAPES = ["label", "local", "local-colon", "label-k", "label-kdec", "label-khex", "dot", "dot-dec", "dot-repeat", "glob-include", "glob-second", "inner-include"]
 
 
 def check_branch(mn, d, shape, base=None):
@@ -77,12 +109,20 @@ def check_branch(mn, d, shape, base=None):
     built = branch_program(mn, d, shape, base)
     if built is None:
         return None, []
-    text, off, addr = built
+    if isinstance(built[0], dict):
+        tree, mains, off, addr = built
+        text = "".join(f";;; {n}\n{t}" for n, t in sorted(tree.items()))
+    else:
+        text, off, addr = built
+        tree = None
     if mn == "sob":
         legal = d % 2 == 0 and -126 <= d <= 0
     else:
         legal = d % 2 == 0 and -256 <= d <= 254
-    out = driver.assemble([("/vf/c04.mac", text)])
+    if tree is None:
+        out = driver.assemble([("/vf/c04.mac", text)])
+    else:
+        out, _ = driver.assemble_tree(tree, mains)
     if out.kind in ("crash", "timeout", "silent", "ok-with-errors"):
         return text, [(f"{out.kind}:{out.exc[0]}@{out.exc[1]}" if out.exc else out.kind, f"{text!r}: {out.kind} {out.exc}")]
     if not legal:
@@ -137,11 +177,14 @@ def rel_case(draw):
     base = draw(st.one_of(st.none(), st.sampled_from([0, 0o1000, 0o100000, 0o177000, 0o177770, 0o160000]),
                           st.integers(0, 0o77777).map(lambda x: 2 * x)))
     # target: ("num", T) bare address | ("before", filler, k) | ("after", filler, k) | ("dot", k) | ("local-before", filler) | ("local-after", filler)
-    tk = draw(st.sampled_from(["num", "before", "after", "dot", "local-before", "local-after", "num", "after", "before"]))
+    place = draw(st.sampled_from(["main", "main", "include", "second"]))
+    tk = draw(st.sampled_from(["num", "before", "after", "dot", "local-before", "local-after", "num", "after", "before"] + (["glob", "glob", "num"] if place != "main" else [])))
     if tk == "num":
         tgt = ("num", draw(st.one_of(st.sampled_from([0, 2, 0o776, 0o1000, 0o1002, 0o1004, 0o100000, 0o177776, 0o177777, 0o77777]), st.integers(0, 0o177777))))
     elif tk == "dot":
         tgt = ("dot", draw(st.integers(-0o400, 0o400)))
+    elif tk == "glob":
+        tgt = ("glob", draw(st.integers(-64, 64)))
     elif tk.startswith("local"):
         tgt = (tk, draw(st.integers(0, 300)))
     else:
@@ -151,8 +194,12 @@ def rel_case(draw):
     mn = draw(st.sampled_from({"one": ONE, "two-first": TWO, "two-second": TWO, "two-both": TWO, "rg": RG, "gr": GR, "fa": FA, "af": AF}[kind]))
     pre = draw(st.integers(0, 3))  # instructions before
     rep = draw(st.sampled_from([1, 1, 2, 3]))
-    return {"rep": rep, "kind": "rel", "shape": kind, "mn": mn, "deferred": deferred, "base": base, "tgt": list(tgt), "kdec": kdec,
-            "other": list(other), "pre": pre}
+    c = {"rep": rep, "kind": "rel", "shape": kind, "mn": mn, "deferred": deferred, "base": base, "tgt": list(tgt), "kdec": kdec,
+         "other": list(other), "pre": pre}
+    if place != "main":
+        c["place"] = place
+        c["pad"] = 2 * draw(st.integers(1, 40))
+    return c
 
 
 def num(v, dec):
@@ -162,9 +209,12 @@ def num(v, dec):
 def build_rel(c):
     """-> (text, base, insn_addr, [(position of rel operand: index, ext word address, target value)], total insn words, other operand)"""
     base = c["base"]
-    B = 0o1000 if base is None else base
+    B0 = 0o1000 if base is None else base
+    place = c.get("place", "main")
+    pad = c.get("pad", 0) if place != "main" else 0
+    B = B0 + pad                       # where the file with the instruction starts
     lines = []
-    if base is not None:
+    if base is not None and place == "main":
         lines.append(f"\t.link {base:o}")
     tgt = c["tgt"]
     lines.append("scope:")
@@ -225,6 +275,10 @@ def build_rel(c):
     elif tgt[0] in ("local-before", "local-after"):
         expr_text = "3:"
         target_val = lab_addr
+    elif tgt[0] == "glob":
+        k = tgt[1]
+        expr_text = "glob" + (("+" if k >= 0 else "-") + num(k, c["kdec"]) if k else "")
+        target_val = B0 + 2 + k       # 'glob::' stands 2 bytes into the first file
     else:
         k = tgt[2]
         expr_text = "tlab" + (("+" if k >= 0 else "-") + num(k, c["kdec"]) if k else "")
@@ -257,7 +311,17 @@ def build_rel(c):
     else:
         lines.append(f"\t{mn} " + ", ".join(ops_text))
     lines += label_lines_after
-    return "\n".join(lines) + "\n", B, insn_addr, rels, nwords, model_ops
+    text = "\n".join(lines) + "\n"
+    if place == "main":
+        return text, B, insn_addr, rels, nwords, model_ops
+    head = (f"\t.link {base:o}\n" if base is not None else "") + f"\tnop\nglob::\n\t.blkb {pad - 2:o}\n"
+    if place == "include":
+        tree = {"main.mac": head + "\t.include \"unit.mac\"\n\tnop\n", "unit.mac": text}
+        mains = ["main.mac"]
+    else:
+        tree = {"a.mac": head, "b.mac": text}
+        mains = ["a.mac", "b.mac"]
+    return (tree, mains), B0, insn_addr, rels, nwords, model_ops
 
 
 def _to_model(op):
@@ -270,7 +334,12 @@ def _to_model(op):
 
 def check_rel(c):
     text, B, insn_addr, rels, nwords, model_ops = build_rel(c)
-    out = driver.assemble([("/vf/c04r.mac", text)])
+    if isinstance(text, tuple):
+        tree, mains = text
+        text = "".join(f";;; {n}\n{t}" for n, t in sorted(tree.items()))
+        out, _ = driver.assemble_tree(tree, mains)
+    else:
+        out = driver.assemble([("/vf/c04r.mac", text)])
     if out.kind != "ok":
         sig = f"rel:{out.kind}" + (f":{out.exc[0]}@{out.exc[1]}" if out.exc else "")
         return text, [(sig, f"{text!r}: {out.kind} {sorted(set(out.error_ids()))} {out.exc}")]
@@ -319,13 +388,13 @@ def run_shard(spec, ctx):
         mn = spec["mn"]
         for d in range(spec["lo"], spec["hi"] + 1):
             for si, shape in enumerate(SHAPES):
-                base = [None, 0o40000, None, 0, None, 0o157000, None, 0o2000, 0o1000][si] if d % 7 == 0 else None
+                base = [None, 0o40000, None, 0, None, 0o157000, None, 0o2000, 0o1000, 0o3000, None, 0o60000][si] if d % 7 == 0 else None
                 text, fails = check_branch(mn, d, shape, base)
                 if text is None:
                     continue
                 boundary = d in (-258, -257, -256, -255, -254, 252, 253, 254, 255, 256, 258, -128, -127, -126, -125, -124, -2, -1, 0, 1, 2)
                 ctx.case(text, abs(d) >= 2, [f"shape-{shape}", "boundary" if boundary else "interior"],
-                         sample=text if boundary and shape in ("label", "dot-dec") and d in (-256, 254, 256, -126, 2) else None)
+                         sample=text if boundary and shape == SHAPES[(BRANCHES + ["sob"]).index(mn) * 5 % len(SHAPES)] and d in (-256, 254, 256, -126, 2) else None)
                 case = {"kind": "branch", "mn": mn, "d": d, "shape": shape, "base": base}
                 for sig, msg in fails:
                     ctx.fail(f"branch:{sig}:{'sob' if mn == 'sob' else 'bcc'}:{shape}", msg, case)
@@ -334,7 +403,7 @@ def run_shard(spec, ctx):
             text, fails = check_rel(c)
             nt = c["shape"] != "one" or c["tgt"][0] != "num" or True
             ctx.case(text, nt, [f"pos-{c['shape']}", f"tgt-{c['tgt'][0]}", "deferred" if c["deferred"] else "direct",
-                                f"repeat-{c.get('rep', 1)}", "ext-before" if c["shape"] in ("two-second",) and tuple(c["other"])[0] in ("idx", "idxd", "imm", "abs") else "no-ext-before"],
+                                f"repeat-{c.get('rep', 1)}", f"place-{c.get('place', 'main')}", "ext-before" if c["shape"] in ("two-second",) and tuple(c["other"])[0] in ("idx", "idxd", "imm", "abs") else "no-ext-before"],
                      sample=text if ctx.evaluations % 29 == 3 else None)
             if fails:
                 return (fails[0][0], fails[0][1], c)
